@@ -130,7 +130,7 @@ def rebuild_case(lit):
 
 def values_orders_arg(case):
     from AutoCarver.discretizers import GroupedList
-    return {f: GroupedList(list(v)) for f, v in case['values_orders'].items()}
+    return {f: (GroupedList({k: list(m) for k, m in v.items()}) if isinstance(v, dict) else GroupedList(list(v))) for f, v in case['values_orders'].items()}
 
 
 def make_carver(case, cfg):
